@@ -191,6 +191,9 @@ func c15kernTable(k *mon.Case, n int, huge bool) ([]byte, map[glyph.Pair]int) {
 			// more pairs than the 16-bit subtable length can describe (> 10920);
 			// real fonts and the library's own encoder write the length modulo 65536
 			np = 10900 + r.IntN(3000)
+			for (14+6*np)&0xffff < 14 {
+				np++ // a wrapped length below the subtable header size is rejected by the reader (not generated)
+			}
 			k.Class("kern-subtable:>10920-pairs")
 		}
 		flags := byte(1) // horizontal
